@@ -87,7 +87,7 @@ def main():
         dst = os.path.join(ROOT, "seeded", a.keep)
         os.makedirs(dst, exist_ok=True)
         for f in os.listdir(d):
-            if os.path.isfile(os.path.join(d, f)):
+            if os.path.isfile(os.path.join(d, f)) and os.path.abspath(d) != os.path.abspath(dst):
                 shutil.copy(os.path.join(d, f), os.path.join(dst, f))
         meta["verification"] = record
         json.dump(meta, open(os.path.join(dst, "meta.json"), "w"), indent=1)
